@@ -116,6 +116,8 @@ pub struct Case {
     /// fault *sequence*: the valid base file is installed at the path and loaded first, then replaced
     /// in place by the faulted bytes (a re-download over a voice the process has already used)
     pub after_good: bool,
+    /// 0: the faulted file is loaded alone; 1: `Engine::load(&[valid base, faulted])`; 2: `Engine::load(&[faulted, valid base])`
+    pub multi: u8,
 }
 
 impl Case {
@@ -784,7 +786,10 @@ impl CaseSpace {
         let ns = self.singles.len() as u64;
         if idx < 2 * ns {
             let (b, f) = &self.singles[(idx % ns) as usize];
-            return Case { base: *b, faults: vec![f.clone()], hash_seed: mix(&[self.seed, 0x4a5, idx / ns]), after_good: false };
+            // first pass: the file alone; second pass (other header-hash seed): generated bases are loaded
+            // together with their valid base file, in either order (the bundled voice would cost 10 ms extra)
+            let multi = if idx / ns == 1 && !self.bases[*b].heavy { 1 + (idx % 2) as u8 } else { 0 };
+            return Case { base: *b, faults: vec![f.clone()], hash_seed: mix(&[self.seed, 0x4a5, idx / ns]), after_good: false, multi };
         }
         let k = idx - 2 * ns;
         let mut r = Rng::new(mix(&[self.seed, 0xd0b1e, k]));
@@ -824,7 +829,9 @@ impl CaseSpace {
             let map2 = SectionMap::parse(&b2);
             faults.push(seeded_fault(&mut r, &b2, map2.as_ref(), near));
         }
-        Case { base: bi, faults, hash_seed: r.next_u64(), after_good: false }
+        let hash_seed = r.next_u64();
+        let multi = if !self.bases[bi].heavy && hash_seed % 8 == 0 { 1 + ((hash_seed >> 3) % 2) as u8 } else { 0 };
+        Case { base: bi, faults, hash_seed, after_good: false, multi }
     }
     pub fn bytes_of(&self, c: &Case) -> Vec<u8> {
         let other = &self.bases[(c.base + 1) % self.bases.len()].bytes;
@@ -865,9 +872,19 @@ pub fn exec_case(path: &std::path::Path, dirpath: &std::path::Path, bytes: &[u8]
             let _ = std::fs::write(path, bytes);
         }
     }
+    let mut paths: Vec<std::path::PathBuf> = vec![use_path.clone()];
+    if let (true, Some(g)) = (c.multi != 0, good) {
+        let gp = path.with_extension("valid.htsvoice");
+        let _ = std::fs::write(&gp, g);
+        if c.multi == 1 {
+            paths.insert(0, gp);
+        } else {
+            paths.push(gp);
+        }
+    }
     jbonsai::verif::set_hash_seed(c.hash_seed);
     crate::alloc::arm(budget_extra);
-    let r = guarded(|| jbonsai::Engine::load(&[&use_path]).map(|e| e.voices.len()).map_err(|e| error_kind(&e)));
+    let r = guarded(|| jbonsai::Engine::load(&paths).map(|e| e.voices.len()).map_err(|e| error_kind(&e)));
     let peak = crate::alloc::disarm();
     let v = match r {
         Ok(Ok(_)) => Verdict::Ok,
